@@ -1520,3 +1520,112 @@ def r22(R):
                         'data')
     R.require(n >= 1, 'copyDataRecords no longer asks is_blob_record for '
               'the records it drops')
+
+
+# ------------------------------------------------------------------ C13.R23
+@rule('C13.R23', 'a temporary file made in a blob directory is not left '
+      'there when a step fails before the storage has taken it: between its '
+      'creation and the hand-over every failing step leads to its removal',
+      props=['C05'], min_instances=3)
+def r23(R):
+    """Path rule with exception edges over the three functions that make
+    such a file: from the statement that creates the name (mktemp/mkstemp)
+    to the call that hands the file over (storeBlob, restoreBlob,
+    _blob_storeblob), an exception that leaves the function must have
+    passed an os.remove/os.unlink of that name."""
+    sites = [(R.prog.cls(FS), R.method(R.prog.cls(FS), '_txn_undo_write')),
+             (None, R.prog.func('ZODB.blob.copyTransactionsFromTo')),
+             (R.prog.cls('ZODB.ExportImport.ExportImport'),
+              R.method(R.prog.cls('ZODB.ExportImport.ExportImport'),
+                       '_importDuringCommit'))]
+    HANDOVER = ('storeBlob', 'restoreBlob', '_blob_storeblob')
+    n = 0
+    for cls, f in sites:
+        g, b, F = R.cfg(f, cls, max_depth=0)
+        # the names of the temporary files, by role
+        tmpvars = set()
+        for a in walk_local(f.node):
+            if isinstance(a, ast.Assign) and isinstance(a.value, ast.Call) \
+                    and dotted(a.value.func) and \
+                    dotted(a.value.func)[-1] in ('mktemp', 'mkstemp'):
+                for t in a.targets:
+                    if isinstance(t, ast.Name):
+                        tmpvars.add(t.id)
+                    elif isinstance(t, ast.Tuple):
+                        tmpvars |= {e.id for e in t.elts
+                                    if isinstance(e, ast.Name)}
+        if not tmpvars:
+            R.violation((f.module.relpath, f.qualname, 'temporary blob file'),
+                        '%s no longer makes its temporary file with '
+                        'mktemp/mkstemp: the rule cannot follow it' %
+                        f.qualname)
+            continue
+        n += 1
+        R.instance('%s: temporary file(s) %s' % (
+            f.qualname, ', '.join(sorted(tmpvars))))
+
+        def makes(node):
+            s_ = node.ast
+            return isinstance(s_, ast.Assign) and isinstance(
+                s_.value, ast.Call) and dotted(s_.value.func) and \
+                dotted(s_.value.func)[-1] in ('mktemp', 'mkstemp')
+
+        def edge(node, st, lab, tgt, F=F, tmpvars=tmpvars):
+            # st: 'none' | 'live' (created, ours) | 'gone' (removed or
+            # handed over)
+            if makes(node) and lab not in ('e', 'eb'):
+                return 'live'
+            # closing the descriptor mkstemp has just opened does not fail
+            if lab in ('e', 'eb') and isinstance(node.ast, ast.Expr) and \
+                    isinstance(node.ast.value, ast.Call) and dotted(
+                        node.ast.value.func) == ('os', 'close'):
+                return PRUNE
+            # a name that was just bound by mktemp is not None
+            if node.kind == 'test' and lab in ('T', 'F') and st == 'live':
+                for e, truth in implied_atoms(node.ast, lab):
+                    if isinstance(e, ast.Compare) and len(e.ops) == 1 and \
+                            isinstance(e.left, ast.Name) and \
+                            e.left.id in tmpvars and isinstance(
+                                e.comparators[0], ast.Constant) and \
+                            e.comparators[0].value is None and \
+                            isinstance(e.ops[0], ast.Is) == truth:
+                        return PRUNE
+            # `if os.path.exists(tmp):` not taken: the file is not there
+            if node.kind == 'test' and lab == 'F' and any(
+                    isinstance(c, ast.Call) and dotted(c.func) and
+                    dotted(c.func)[-1] == 'exists' and c.args and
+                    isinstance(c.args[0], ast.Name) and
+                    c.args[0].id in tmpvars for c in ast.walk(node.ast)):
+                return 'gone'
+            for op in F.ops(node):
+                if op.kind == 'call' and op.path is not None:
+                    if op.path[-1] in ('remove', 'unlink') and isinstance(
+                            op.ast, ast.Call) and op.ast.args and isinstance(
+                                op.ast.args[0], ast.Name) and \
+                            op.ast.args[0].id in tmpvars:
+                        return 'gone'
+                    if op.path[-1] in HANDOVER and lab not in ('e', 'eb') \
+                            and st == 'live':
+                        return 'gone'
+            if node.kind in ('for', 'loophead') and st == 'gone':
+                return 'none'
+            return st
+
+        def at(node, st, f=f):
+            if node.id == g.exit_raise and st == 'live':
+                return Violation(
+                    '%s can fail between making its temporary blob file and '
+                    'handing it to the storage without removing the file: '
+                    'after the abort a (partial) copy stays in the blob '
+                    'directory\'s tmp for ever -- nothing records it, no '
+                    'abort and no pack removes it' % f.qualname)
+            return st
+
+        vs, stats = explore(g, 'none', at=at, edge=edge)
+        R.count(stats)
+        for v in vs[:1]:
+            R.violation(v.node, v.message, g, v.path, at_root=True,
+                        key='temporary blob file left behind on a failing '
+                            'path')
+    R.require(n >= 3, 'expected three makers of temporary blob files; '
+              'found %d' % n)
